@@ -24,7 +24,20 @@ TOP_LEVEL = {
 }
 
 
+# roots that a property module lists but whose contract did not carry that property: their (untagged) clauses were verified in
+# that property's run without being reported for it (found with the round-9 seeds: a cleanup-runner change was invisible to C06)
+ALSO_FOR = {
+    f'{L}.futures:TransferCoordinator.announce_done': ['C06'], f'{L}.tasks:Task.__call__': ['C06'],
+    f'{UT}:OSUtils.remove_file': ['C19', 'C20'], f'{UT}:OSUtils.rename_file': ['C19', 'C20'],
+    f'{L}.tasks:Task._execute_main': ['C05'], f'{MG}:TransferManager.__init__': ['C18'],
+    f'{L}.futures:TransferCoordinator.add_failure_cleanup': ['C08', 'C04'], f'{L}.futures:TransferCoordinator.add_done_callback': ['C04'],
+}
+
+
 def register(R):
+    for t, more in ALSO_FOR.items():
+        if t in R.contracts:
+            R.contracts[t].props = tuple(R.contracts[t].props) + tuple(x for x in more if x not in R.contracts[t].props)
     for t, why in TOP_LEVEL.items():
         if t in R.contracts:
             R.contracts[t].top_level = True
